@@ -302,7 +302,7 @@ def read_ndjson(path):
     return out
 
 
-def judge(spec, cases, cfg=None, shards=None, timeout=900, tag=None, env=None, xmx="3g"):
+def judge(spec, cases, cfg=None, shards=None, timeout=900, tag=None, env=None, xmx="2g"):
     """Evaluate a TLA+ judge operator on a list of JSON cases.  The spec reads IOEnv.TRACE as Cases, steps i=1..N
     and prints <<"MISMATCH", i, ...>> for each case the TLA+ definition disagrees with.  Sharded over processes.
     Returns (list of (case_index, info), total_states)."""
@@ -344,7 +344,7 @@ def judge(spec, cases, cfg=None, shards=None, timeout=900, tag=None, env=None, x
     return sorted(bad), st
 
 
-def validate(spec, executions, cfg=None, shards=None, timeout=900, tag=None, env=None, max_reject=8, dfs=False, xmx="3g"):
+def validate(spec, executions, cfg=None, shards=None, timeout=900, tag=None, env=None, max_reject=8, dfs=False, xmx="2g"):
     """Trace validation.  `executions` is a list of event lists; they are concatenated with {"e":"Reset"} separators and
     checked against SPEC/<spec>.tla, which must print <<"REJECTED", line>> from its POSTCONDITION when the longest
     explained prefix is shorter than the trace.  Returns (rejected: list of (exec_index, event_index, event), states)."""
